@@ -20,7 +20,7 @@ import numpy as np
 import qiskit
 from qiskit.circuit import Gate
 from qiskit import QuantumCircuit, QuantumRegister
-from qclib.gates.util import check_u2, apply_ctrl_state
+from qclib.gates.util import check_u2, apply_ctrl_state, orthonormal_eig
 from qclib.gates.multitargetmcsu2 import MultiTargetMCSU2
 from qclib.gates.ldmcu import Ldmcu
 
@@ -208,7 +208,7 @@ class MCU(Gate):
     def _gate_u(a_gate, coefficient, signal):
         param = 1 / np.abs(coefficient)
 
-        values, vectors = np.linalg.eig(a_gate)
+        values, vectors = orthonormal_eig(a_gate)
         gate = (
             np.power(values[0] + 0j, param) * vectors[:, [0]] @ vectors[:, [0]].conj().T
         )
